@@ -70,6 +70,7 @@ fn dispatch(case: &J) -> J {
     "parse" => ops_feel::op_parse(case),
     "name" => ops_feel::op_name(case),
     "history" => ops_feel::op_history(case),
+    "scopehist" => ops_feel::op_scopehist(case),
     "num" => ops_num::op_num(case),
     "numtext" => ops_num::op_numtext(case),
     "numsweep" => ops_num::op_numsweep(case),
